@@ -734,6 +734,8 @@ func c08Scaling(c *fw.Ctx, which int) fw.Outcome {
 	return fw.OK(key, desc)
 }
 
+var c08Digest string
+
 func init() {
 	rN := func(tier string) int64 { return tierN(tier, 150000, 3000000) }
 	wN := func(tier string) int64 { return tierN(tier, 50000, 1000000) }
@@ -745,7 +747,17 @@ func init() {
 		Assumptions:  []string{"'never loops forever' is decided as bounded progress (40 s stall limit per case, confirmed by three isolated re-runs); 'time proportional to the input' as a three-valued scaling measurement", "nil *Item elements and map keys different from the definition's id are not 'optional parts' and are not generated"},
 		Cases:        func(tier string) int64 { return rN(tier) + wN(tier) + tierN(tier, 0, 10) },
 		StallSeconds: 40,
-		Anchors:      []string{"ReadFromSRT", "ReadFromWebVTT", "ReadFromTTML", "ReadFromSSAWithOptions", "ReadFromSTL", "ReadFromTeletext", "Open", "WriteToSRT", "WriteToSSA", "WriteToSTL", "WriteToTTML", "WriteToWebVTT"},
+		Setup: func(c *fw.Ctx) error {
+			c08Digest = stateDigest()
+			return nil
+		},
+		Final: func(c *fw.Ctx) []fw.Outcome {
+			if d := stateDigest(); d != c08Digest {
+				return []fw.Outcome{fw.Bad(2, nil, "the package state digest changed while reading and writing hostile inputs (%s -> %s): a call left mutable package state behind", c08Digest, d)}
+			}
+			return nil
+		},
+		Anchors: []string{"ReadFromSRT", "ReadFromWebVTT", "ReadFromTTML", "ReadFromSSAWithOptions", "ReadFromSTL", "ReadFromTeletext", "Open", "WriteToSRT", "WriteToSSA", "WriteToSTL", "WriteToTTML", "WriteToWebVTT"},
 		Run: func(c *fw.Ctx) fw.Outcome {
 			switch {
 			case c.Idx < rN(c.Tier):
